@@ -567,7 +567,7 @@ def _b_counter(ex, st, args, kwargs, node, spec):
     non-negative counts (entries that sum to zero are dropped, which reads as 0 again)."""
     if len(args) == 1 and isinstance(args[0], Opt):
         args = [ex.need_not_none(args[0], st, node, "Counter()")]
-    if len(args) == 1 and isinstance(args[0], MapV):
+    if len(args) == 1 and (isinstance(args[0], MapV) or (isinstance(args[0], ObjV) and args[0].cls == "CountDict")):
         return args[0]
     raise Unsupported("Counter of something that is not a map of counts")
 
